@@ -4,7 +4,7 @@ CONSTANTS
   Mode = "edge"
   InBits = {8}
   OutBits = {4}
-  WVals <- W_edge
+  WVals <- W_edge_quick
   BVals <- B_edge
   Targets <- T_edge_quick
   ScaleBits = {1, 32}
